@@ -61,7 +61,9 @@ class TextData(Data):
         if isinstance(values, bytes):
             values = values.decode()
 
-        if isinstance(values, np.ndarray) and values.dtype == object:
+        if isinstance(values, np.ndarray) and (
+            values.dtype == object or values.size == 0
+        ):
             values = values.astype(str)
 
         if (not isinstance(values, (str, type(None), np.ndarray))) or (
